@@ -89,6 +89,8 @@ class C03(Property):
         else:
             case = gen_builtin(rng, tier, real_p)
         case.pop("rerun", None)
+        for r in case["runs"]:
+            r.pop("resume", None)           # resumed runs are checked by C01 (and C02)
         # C03 looks at each run on its own; keep the in-process run (objects really shared) and at most two others
         case["runs"] = case["runs"][:1 + rng.choice([0, 1, 1, 2])]
         if rng.chance(0.3):
@@ -100,6 +102,8 @@ class C03(Property):
     def search(self, rng, tier):
         case = gen_toy(rng, tier, 0.0, fail_bias=2.5, share_bias=2.5)
         case.pop("rerun", None)
+        for r in case["runs"]:
+            r.pop("resume", None)
         case["runs"] = case["runs"][:2]
         if rng.chance(0.5):
             case["perm"] = rng.randint(1, 10 ** 6)
